@@ -16,7 +16,10 @@ package main
 import (
 	"fmt"
 	"runtime"
+	"os"
 	"runtime/debug"
+	"runtime/pprof"
+	"time"
 	"sort"
 	"strings"
 	"sync"
@@ -61,7 +64,15 @@ type witness struct {
 	Files  []string `json:"files"`         // changed files passed to the query
 	Edited []string `json:"content_edits"` // files whose bytes changed (subset of Files; the rest are BUILD files)
 	Level  int      `json:"level"`
+
+	// generator-assigned identities of the two repositories (0 = unknown): lets a worker reuse the real graphs it
+	// built for the previous evaluation. Never serialised, reset by clone().
+	afterID, beforeID uint64
 }
+
+var repoIDs uint64
+
+func newID() uint64 { return atomic.AddUint64(&repoIDs, 1) }
 
 func cloneStrs(s []string) []string { return append([]string(nil), s...) }
 
@@ -88,6 +99,7 @@ func (w witness) clone() witness {
 		c.Before = &b
 	}
 	c.Files, c.Edited = cloneStrs(w.Files), cloneStrs(w.Edited)
+	c.afterID, c.beforeID = 0, 0
 	return c
 }
 
@@ -398,8 +410,8 @@ func buildState(state *core.BuildState, r *repo) {
 }
 
 type states struct {
-	before, after       *core.BuildState
-	beforeKey, afterKey string
+	before, after     *core.BuildState
+	beforeID, afterID uint64
 }
 
 func newStates() *states {
@@ -410,17 +422,17 @@ func newStates() *states {
 
 func run(st *states, w *witness) map[string]bool {
 	// the real graphs are rebuilt only when the repository differs from the previous evaluation of this worker
-	if k := fmt.Sprintf("%v", w.After); k != st.afterKey {
+	if w.afterID == 0 || w.afterID != st.afterID {
 		buildState(st.after, &w.After)
-		st.afterKey = k
+		st.afterID = w.afterID
 	}
 	var out core.BuildLabels
 	if w.Mode == "changes" {
 		out = query.Changes(st.after, w.Files, w.Level, false)
 	} else {
-		if k := fmt.Sprintf("%v", *w.Before); k != st.beforeKey {
+		if w.beforeID == 0 || w.beforeID != st.beforeID {
 			buildState(st.before, w.Before)
-			st.beforeKey = k
+			st.beforeID = w.beforeID
 		}
 		out = query.DiffGraphs(st.before, st.after, w.Files, w.Level, false)
 	}
@@ -661,7 +673,11 @@ func shrink(st *states, w witness, reason string) witness {
 func classOf(w *witness, reason string) string {
 	cl := w.Mode + ":" + reason + "-missed:" + levelTag(w.Level)
 	if w.Mode == "diffgraphs" {
-		cl += ":edit=" + strings.SplitN(w.Edit, "(", 2)[0]
+		ed := strings.SplitN(w.Edit, "(", 2)[0]
+		if strings.HasSuffix(ed, "-provides") {
+			ed = "provides" // add / remove / retarget a provides entry: one family
+		}
+		cl += ":edit=" + ed
 	}
 	var feats []string
 	anyT := func(f func(t tgt) bool) bool {
@@ -892,9 +908,10 @@ func spaceA(quick bool, out chan<- job) {
 						t1.Name = "t1"
 						r.Targets = append(r.Targets, t1)
 					}
+					id := newID()
 					for _, fs := range fsets {
 						for _, lv := range levels {
-							emit(witness{Mode: "changes", After: r, Files: fs, Edited: fs, Level: lv})
+							emit(witness{Mode: "changes", After: r, Files: fs, Edited: fs, Level: lv, afterID: id})
 						}
 					}
 				}
@@ -1028,9 +1045,10 @@ func spaceB(quick bool, out chan<- job) {
 					if c.n >= 4 {
 						levels = []int{1, 2, -1}
 					}
+					id := newID()
 					for _, fs := range fileSets(repoFiles(&r), 2) {
 						for _, lv := range levels {
-							emit(witness{Mode: "changes", After: r, Files: fs, Edited: fs, Level: lv})
+							emit(witness{Mode: "changes", After: r, Files: fs, Edited: fs, Level: lv, afterID: id})
 						}
 					}
 				}
@@ -1174,9 +1192,10 @@ func spaceC(quick bool, out chan<- job) {
 			out <- func(st *states, emit func(w witness)) {
 				for _, r := range b {
 					edits(r, func(name string, before, after repo, files, edited []string) {
+						ida, idb := newID(), newID()
 						for _, lv := range []int{0, 1, -1} {
 							bc := before
-							emit(witness{Mode: "diffgraphs", Edit: name, Before: &bc, After: after, Files: files, Edited: edited, Level: lv})
+							emit(witness{Mode: "diffgraphs", Edit: name, Before: &bc, After: after, Files: files, Edited: edited, Level: lv, afterID: ida, beforeID: idb})
 						}
 					})
 				}
@@ -1197,6 +1216,12 @@ func main() {
 	lib.Quiet()
 	debug.SetGCPercent(-1)
 	debug.SetMemoryLimit(512 << 20) // tiny live heap, very high allocation rate inside FindRevdeps
+	if pf := os.Getenv("VERIF_CPUPROFILE"); pf != "" {
+		f, _ := os.Create(pf)
+		pprof.StartCPUProfile(f)
+		defer pprof.StopCPUProfile()
+		time.AfterFunc(15*time.Second, func() { pprof.StopCPUProfile(); f.Close(); os.Exit(3) })
+	}
 	if r.Replay != "" {
 		var w witness
 		lib.LoadReplay(r.Replay, &w)
